@@ -1,6 +1,6 @@
 SPECIFICATION Spec
 CONSTANTS
-  Symbols = {97, 65, 49, 45, 95, 46, 92, 233}
+  Symbols = {97, 65, 49, 45, 95, 46, 92, 233, 32, 10}
   L = 5
 INVARIANT RefIdentities
 INVARIANT Emit
